@@ -906,6 +906,10 @@ class Process(StateMachine, persistence.Savable, metaclass=ProcessStateMachineMe
             msg_txt = msg[MESSAGE_TEXT_KEY] or ''
 
         self.set_status(msg_txt)
+        if self.future().cancelled():
+            # The kill was requested by cancelling the process future: a cancelled future cannot take the outcome any more,
+            # so report it through a fresh one (as ``on_except`` does for a future that was already resolved).
+            self._future = persistence.SavableFuture(loop=self._loop)
         self.future().set_exception(exceptions.KilledError(msg_txt))
 
     @super_check
